@@ -163,7 +163,7 @@ impl Property for P {
         vec!["a refused call is only known to have had no effect through the model continuing to match afterwards".into()]
     }
     fn workloads(&self, tier: Tier) -> Vec<Workload> {
-        vec![Workload::new("histories", tier.pick(40_000, 1_200_000), false, "random op histories over stratified N")]
+        vec![Workload::new("histories", tier.pick(40_000, 8_000_000), false, "random op histories over stratified N")]
     }
     fn run_case(&self, _wl: &str, idx: u64, seed: u64, rec: &mut Rec) {
         let mut rng = Rng::derive(seed, "C04", idx);
